@@ -340,6 +340,7 @@ Definition radix_wellformed (s : list Z) : bool :=
 
 Definition radix_ok (x : f64) (r : Z) (out : list Z) : bool :=
   if (r <? 2) || (36 <? r) then list_eqb out range_error
+  else if r =? 10 then list_eqb out (to_string x)
   else match x with
        | S754_finite _ _ _ => radix_roundtrip_check out r x && radix_wellformed out
        | _ => list_eqb out (to_string x)
